@@ -11,6 +11,7 @@ import os
 import sys
 import time
 
+sys.path.insert(0, os.path.dirname(os.path.abspath(__file__)))
 sys.path.insert(0, os.path.dirname(os.path.dirname(os.path.abspath(__file__))))
 from vlib import harness, symx, solve, jf, csym  # noqa: E402
 import z3  # noqa: E402
@@ -627,6 +628,42 @@ def main():
         chk.encoded(CellBoundingPotential.standard_velocity_displacement,
                     CellBoundingPotential._standard_velocity_displacement_without_charges)
         chk.explore_parallel([True, False], explore_cell_bounding)
+    if chk.want("hat"):
+        import C02_hat as hat
+        chk.encoded(pot_abstracts.MexicanHatPotential.standard_velocity_displacement,
+                    pot_abstracts.MexicanHatPotential._displacement_front_outside_sphere,
+                    pot_abstracts.MexicanHatPotential._displacement_behind_outside_sphere,
+                    pot_abstracts.MexicanHatPotential._displacement_front_inside_sphere,
+                    pot_abstracts.MexicanHatPotential._displacement_behind_inside_sphere)
+        chk.bound(mexican_hat="generic geometry in dimension 1-3 (quick 1-2) for an arbitrary radial function "
+                              "strictly decreasing inside and increasing outside the equilibrium radius, bounded or "
+                              "unbounded outside, diverging or finite at the centre; symbolic separation, radius, "
+                              "speed, budget")
+        chk.stub("the three abstract methods of MexicanHatPotential -> the radial contract (uninterpreted radial "
+                 "function G of the squared distance, inversions return the radius R on their side with G(R^2) = u)")
+        chk.assume("the generic geometry is decided against the radial contract (potential a function of |s| only, "
+                   "strictly decreasing on (0, r0], increasing on [r0, oo), bounded by its limit outside / finite at "
+                   "the centre, inversions exact on their side); the contract itself is decided for "
+                   "LennardJonesPotential and DisplacedEvenPowerPotential (powers 2, 4, 6) by the hat-contract "
+                   "obligations, with the constructor's float constant 2 ** (1 / 6) replaced by the exact sixth root")
+        chk.register_replay("hat", hat.replay_hat)
+        hat.TIMEOUT[0] = 600 if chk.thorough else 180
+        dims = (1, 2, 3) if chk.thorough else (1, 2)
+        htasks = [(d, d - 1, bo, fc) for d in dims for (bo, fc) in ((True, False), (False, True))]
+        if chk.thorough:
+            htasks += [(d, 0, bo, fc) for d in (2, 3) for (bo, fc) in ((True, True), (False, False))]
+        chk.explore_parallel(htasks, hat.explore)
+        # (A) the radial contract assumed above, for the two shipped subclasses
+        from jellyfysh.potential.lennard_jones_potential import LennardJonesPotential
+        from jellyfysh.potential.displaced_even_power_potential import DisplacedEvenPowerPotential
+        chk.encoded(LennardJonesPotential._potential, LennardJonesPotential._invert_potential_inside_minimum,
+                    LennardJonesPotential._invert_potential_outside_minimum, DisplacedEvenPowerPotential._potential,
+                    DisplacedEvenPowerPotential._invert_potential_inside_minimum,
+                    DisplacedEvenPowerPotential._invert_potential_outside_minimum)
+        chk.register_replay("hat-contract", hat.replay_contract)
+        ctasks = [("lj", None, it) for it in ("radial", "monotone", "inside", "outside")] + \
+                 [("dep", p, it) for p in (2, 4, 6) for it in ("radial", "monotone", "inside", "outside")]
+        chk.explore_parallel(ctasks, hat.explore_contract)
     chk.finish()
 
 
@@ -634,6 +671,25 @@ def do_replay(chk):
     import json
     with open(chk.args.replay) as f:
         d = json.load(f)["data"]
+
+    if d["kind"] == "hat-contract":
+        import C02_hat as hat
+
+        class QC:
+            info = {"task": d["task"]}
+        out = hat.replay_contract({k: F(v) for k, v in d["model"].items() if _is_num(v)}, QC)
+        print("replay:", out["what"])
+        sys.exit(1 if out["reproduced"] else 0)
+    if d["kind"] == "hat":
+        import C02_hat as hat
+
+        class QH:
+            info = {"task": [len(d["s"]), d.get("direction", len(d["s"]) - 1)]}
+        m = {"r0": d["r0"], "dU": d["dU"]}
+        m.update({"s%d" % i: c for i, c in enumerate(d["s"])})
+        out = hat.replay_hat({k: F(v) for k, v in m.items()}, QH)
+        print("replay:", out["what"])
+        sys.exit(1 if out["reproduced"] else 0)
 
     class Q:
         info = d["info"]
